@@ -69,6 +69,15 @@ package protocol
 //@   requires p != nil && p.gw != nil
 //@   ensures[C17] iff: (err == nil) == ((srvCaps(p.gw.SmartCardAuth, p.gw.TokenAuth) == 0 && clientAuthCaps == 0) || (srvCaps(p.gw.SmartCardAuth, p.gw.TokenAuth) & clientAuthCaps) != 0)
 //@   ensures[C17] advertise: err == nil ==> caps == srvCaps(p.gw.SmartCardAuth, p.gw.TokenAuth)
+//@   ghostset #capsMatched = (err == nil)
+//@   ghostset #capsClient = clientAuthCaps
+//@   nopanic[C10]
+
+//@ func (*Processor).handshakeRequest
+//@   ensures[C17] decode: len(data) >= 6 ==> major == data[0] && minor == data[1] && version == le16(data, 2) && extAuth == le16(data, 4)
+//@   ghostset #hsMajor = major
+//@   ghostset #hsMinor = minor
+//@   ghostset #hsExtAuth = extAuth
 //@   nopanic[C10]
 
 //@ func makeRedirectFlags
@@ -182,7 +191,7 @@ package protocol
 
 //@ func (*Processor).Process
 //@   requires[C10] wf: p != nil && p.gw != nil && p.tunnel != nil && p.tunnel.transportIn != nil && p.tunnel.transportOut != nil && p.tunnel.User != nil && dyn(p.tunnel.User, ptr(identity.User)) != nil
-//@   requires start: p.state == 0 && !#errSent && !#closeOK && !#hsOK && !#tcOK && !#taOK && !#ccOK && #dials == 0 && #fwd == 0 && #backend == nil
+//@   requires start: p.state == 0 && !#errSent && !#closeOK && !#hsOK && !#tcOK && !#taOK && !#ccOK && #dials == 0 && #fwd == 0 && #backend == nil && !#capsMatched && !#cookieOK && !#hostOK
 //@   requires wiring: #cookieRequired == (p.gw.CheckPAACookie != nil) && #hostRequired == (p.gw.CheckHost != nil)
 //@   requires[C07] ownTunnel: ctxTunnel(ctx) == p.tunnel
 //@   loop 0 invariant[C07] isolation: sameExcept("protocol.Tunnel.rwc", p.tunnel) && sameExcept("protocol.Tunnel.TargetServer", p.tunnel) && sameExcept("protocol.Tunnel.RemoteAddr", p.tunnel) && sameExcept("protocol.Tunnel.BytesSent", p.tunnel) && sameExcept("protocol.Tunnel.BytesReceived", p.tunnel) && sameExcept("protocol.Tunnel.LastSeen", p.tunnel) && sameExcept("protocol.Gateway.IdleTimeout", p.gw) && sameExcept("identity.User.userName", p.tunnel.User)
@@ -193,20 +202,28 @@ package protocol
 //@       && (p.state < 4 ==> #backend == nil)
 //@       && (p.state >= 2 && #cookieRequired ==> #cookieOK)
 //@       && !#errSent && !#closeOK
+//@   loop 0 invariant[C16,C17] outcomes: #capsMatched == (p.state >= 1) && (p.state < 2 ==> !#cookieOK) && (p.state < 4 ==> !#hostOK)
 //@   assigns[C07] p.state, p.tunnel.rwc, p.tunnel.TargetServer, p.tunnel.BytesSent, p.tunnel.BytesReceived, p.tunnel.LastSeen, p.gw.IdleTimeout
 //@   assigns[C07] p.tunnel.RemoteAddr, region(identity.User.userName) at p.tunnel.User
+//@   assigns #capsMatched, #capsClient, #hsMajor, #hsMinor, #hsExtAuth
 //@   assigns #errSent, #closeOK, #hsOK, #tcOK, #taOK, #ccOK, #cookieOK, #hostOK, #hostChecked, #reqServer, #reqPort, #dials, #dialAddr, #backend, #fwd, #lastType, #lastStatus, #relayed, #connWrite, #connWriteTo, #connWrites, #lastNow, #reads, #prevChunk, #lastChunk, #readFailed, #cur
 //@   ensures[C01] once: #dials <= 1 && #fwd <= 1
 //@   ensures[C01] errorEnds: #errSent ==> result != nil
 //@   ensures[C01] cleanEnd: result == nil ==> #closeOK
 //@   site (*Tunnel).Write requires[C16] respType: le16(arg1, 0) == uint16(respTypeOf(pt))
+//@   site (*Tunnel).Write requires[C17] negotiated: le16(arg1, 0) == 0x2 && statusOf(arg1) == 0 ==> #capsMatched && #capsClient == #hsExtAuth && arg1[12] == #hsMajor && arg1[13] == #hsMinor && le16(arg1, 16) == srvCaps(p.gw.SmartCardAuth, p.gw.TokenAuth)
+//@   site (*Tunnel).Write requires[C17] mismatch: le16(arg1, 0) == 0x2 && p.state == 0 ==> #capsClient == #hsExtAuth && (!#capsMatched ==> statusOf(arg1) == 0x800759E9)
+//@   site (*Tunnel).Write requires[C17] decoded: le16(arg1, 0) == 0x2 && p.state == 0 && len(pkt) >= 6 ==> #hsMajor == pkt[0] && #hsMinor == pkt[1] && #hsExtAuth == le16(pkt, 4)
+//@   site (*Tunnel).Write requires[C16] cookieDenied: le16(arg1, 0) == 0x5 && p.state == 1 && #cookieRequired && !#cookieOK ==> statusOf(arg1) == 0x800759F8
+//@   site (*Tunnel).Write requires[C16] hostDenied: le16(arg1, 0) == 0x9 && p.state == 3 && #hostRequired && !#hostOK ==> statusOf(arg1) == 0x800759DA
+//@   site (*Tunnel).Write requires[C16] unreachable: le16(arg1, 0) == 0x9 && p.state == 3 && #backend == nil ==> statusOf(arg1) != 0
 //@   site receive requires[C06] payload: arg0 == pkt && arg1 == p.tunnel.rwc
 //@   site forward requires[C06] pair: arg0 == p.tunnel.rwc && arg1 == p.tunnel
 //@   nopanic[C10]
 
 // ---------------------------------------------------------------- HTTP handlers, registry, package state
 
-//@ define freshHistory() = !#errSent && !#closeOK && !#hsOK && !#tcOK && !#taOK && !#ccOK && #dials == 0 && #fwd == 0 && #backend == nil
+//@ define freshHistory() = !#errSent && !#closeOK && !#hsOK && !#tcOK && !#taOK && !#ccOK && #dials == 0 && #fwd == 0 && #backend == nil && !#capsMatched && !#cookieOK && !#hostOK
 //@ define pkgReady() = connectionCache != nil && websocketConnections != nil && legacyConnections != nil && c != nil && c.cache != nil
 // every cached tunnel is stored under its own connection identifier (C07: IN and OUT pair only on equal identifiers)
 //@ define cachedTunnel(k) = dyn(cacheVal(c.cache, k), ptr(Tunnel))
